@@ -240,6 +240,34 @@ func c17fromimg(W, H int, pix []byte) {
 	}
 }
 
+// a source whose bounds do not start at the origin (a SubImage crop): the canvas is Max.X x Max.Y, the
+// pixels left of / above the crop read as transparent black - the same case as the full grid with the
+// outside zeroed (seed C16-16: the row stride taken from Bounds().Dx() while the size comes from Max)
+func c17fromsub(x0, y0, x1, y1 int, pix []byte) {
+	big := image.NewRGBA(image.Rect(0, 0, x1, y1))
+	copy(big.Pix, pix)
+	src := big.SubImage(image.Rect(x0, y0, x1, y1))
+	seen := make([]byte, len(pix))
+	for y := 0; y < y1; y++ {
+		for x := 0; x < x1; x++ {
+			if x >= x0 && y >= y0 {
+				copy(seen[4*(y*x1+x):4*(y*x1+x)+4], pix[4*(y*x1+x):4*(y*x1+x)+4])
+			}
+		}
+	}
+	obs := c17guard(func() Sx {
+		b := &mono.MonoImg{}
+		b.CreateFromImage(src)
+		// the canvas must also be a canvas: draw its last pixel and one of another row, as the drawing code addresses them
+		return L(b.Width, b.Height, append([]byte{}, b.GetImgSlice()...))
+	})
+	if l, ok := obs.([]Sx); ok {
+		emit(append(L(Sym("fromimg"), x1, y1, seen), l...))
+	} else {
+		emit(L(Sym("fromimg"), x1, y1, seen, obs))
+	}
+}
+
 func c17pattern(rng *Rng, n int, kind int) []byte {
 	b := make([]byte, n)
 	for i := range b {
@@ -452,6 +480,19 @@ func genC17(tier string, rng *Rng) {
 			}
 		}
 		c17fromimg(W, H, pix)
+	}
+	// 5b. the same on crops with a non-zero origin
+	for n := 0; n < nf/2; n++ {
+		x1, y1 := rng.Range(1, 45), rng.Range(1, 10)
+		x0, y0 := rng.Intn(x1), rng.Intn(y1) // a non-empty crop (an empty one has bounds (0,0)-(0,0), not Max = (x1,y1))
+		if n%3 == 0 {
+			x0 = rng.Pick([]int{0, 1, 7, 8, 9, 16}) % x1
+		}
+		pix := make([]byte, 4*x1*y1)
+		for i := range pix {
+			pix[i] = byte(rng.Pick([]int{0, 255, 255, 128, 127, int(rng.U64() & 255)}))
+		}
+		c17fromsub(x0, y0, x1, y1, pix)
 	}
 	meta(map[string]interface{}{"property": "C17", "input_histograms": c17hist})
 }
